@@ -256,7 +256,20 @@ func (w *Worker) RunPath(fn *ssa.Function, decisions []Decision) (res *PathResul
 				}
 				res.Outcome, res.Detail = "panic", msg
 				if m, sres := r.model(); sres == smt.Sat {
-					r.finding("panic", "panic", msg, m, "")
+					// a panic on a path that the harness has declared, unconditionally, to lie in an open
+					// known-finding class (vrt.Known(id, true) before the call) is reported under that class; the
+					// report still requires the panic to reproduce natively and to come from the recorded function
+					kid := ""
+					for _, k := range r.known {
+						if r.eng.KnownOpen[k.id] && k.cond.IsConst() && k.cond.B {
+							kid = k.id
+						}
+					}
+					if kid != "" {
+						r.finding("known-panic", "panic", msg, m, kid)
+					} else {
+						r.finding("panic", "panic", msg, m, "")
+					}
 				} else {
 					res.Unknown = append(res.Unknown, "panic-model")
 				}
